@@ -25,7 +25,7 @@ from concurrent.futures import ThreadPoolExecutor
 ROOT = os.path.dirname(os.path.dirname(os.path.abspath(__file__)))
 REPO = os.environ.get("VERIF_REPO", "/repo")
 SPEC = os.path.join(ROOT, "spec")
-EVID = os.path.join(ROOT, "evidence")
+EVID = os.environ.get("VERIF_EVID", os.path.join(ROOT, "evidence"))
 NCPU = os.cpu_count() or 4
 
 
@@ -119,6 +119,14 @@ class Ctx:
     def build(self, race=False):
         """Builds the harness against the current /repo tree with hooks on."""
         hdir = os.path.join(ROOT, "harness")
+        if REPO != "/repo":
+            # testing against a scratch copy of the repository (seeded changes): private copy of the harness
+            # sources whose go.mod points at that copy
+            hdir = os.path.join(self.work, "harness_src")
+            if not os.path.isdir(hdir):
+                shutil.copytree(os.path.join(ROOT, "harness"), hdir)
+                gm = open(os.path.join(hdir, "go.mod")).read().replace("=> /repo", "=> " + REPO)
+                open(os.path.join(hdir, "go.mod"), "w").write(gm)
         try:
             shutil.copy(os.path.join(REPO, "go.sum"), os.path.join(hdir, "go.sum"))
         except OSError:
